@@ -235,6 +235,18 @@ def replay(ob):
                 fails.append({"sg": sg, "occupied": extra, "observed": "%s: %s" % (type(e).__name__, str(e)[:200])})
             if len(fails) >= 3:
                 return {"reproduced": True, "failing_inputs": fails}
+    # one analyzer used for two crystals in turn: the conventional system must be the second crystal's
+    try:
+        a = tr.analyze(tr.pinned_probe(152, npin=1))
+        a.get_conventional_system()
+        second = tr.pinned_probe(154, [(_sym.letters_of(154)[0], 32, None)], npin=1)
+        a.set_system(second)
+        conv = a.get_conventional_system()
+        if sorted(conv.get_atomic_numbers()) != sorted(a.get_symmetry_dataset().std_types):
+            fails.append({"sg": 154, "presentation": "analyzer that had analysed another crystal before (set_system)", "observed": "conventional system has the composition of the previous crystal"})
+            return {"reproduced": True, "failing_inputs": fails}
+    except Exception as e:  # noqa
+        fails.append({"presentation": "set_system on a used analyzer", "observed": "%s: %s" % (type(e).__name__, str(e)[:200])})
     # coordinates close to (but not on) a cell face after the applied normalizer: snapping must stay a numerical clean-up
     for sg in ([w["sg"]] if "sg" in w else []) + [75, 16, 143, 3, 25]:
         L = _sym.letters_of(sg)
